@@ -391,6 +391,97 @@ theorem parseBasicAuth_basicAuthValue (u p : Bytes) (hu : (58 : UInt8) ∉ u) :
   simp only [this, Bool.false_eq_true, if_false]
   simp
 
+/-! ## §5 the credentials pair: scheme, base64, split at the first colon -/
+
+theorem splitFirstColon_eq (cs : Bytes) :
+    splitFirstColon cs =
+      (if (cs.takeWhile (fun c => c != 58)).length == cs.length then none
+       else some (cs.takeWhile (fun c => c != 58), cs.drop ((cs.takeWhile (fun c => c != 58)).length + 1))) := by
+  induction cs with
+  | nil => rfl
+  | cons c cs ih =>
+    unfold splitFirstColon
+    by_cases hc : c = 58
+    · subst hc; simp
+    · have h1 : (c == 58) = false := by simpa using hc
+      have h2 : (c != 58) = true := by simpa using hc
+      simp only [h1, Bool.false_eq_true, if_false, List.takeWhile_cons, h2, if_true, List.length_cons, ih]
+      split <;> rename_i h
+      · simp at h; simp [h]
+      · simp at h; simp [h]
+
+/-- `parseBasicAuth` = read the credentials string, then split it at the first colon -/
+theorem parseBasicAuth_eq (v : Bytes) : parseBasicAuth v = (basicPayload v).bind splitFirstColon := by
+  unfold parseBasicAuth basicPayload
+  split
+  · rfl
+  · cases b64Decode (v.drop 6) with
+    | none => rfl
+    | some cs => simp only [Option.bind_some]; rw [splitFirstColon_eq]
+
+/-- a credentials string splits into `(u, p)` iff it is `u`, a colon, `p`, and `u` has no colon -/
+theorem splitFirstColon_iff (cs u p : Bytes) :
+    splitFirstColon cs = some (u, p) ↔ cs = u ++ 58 :: p ∧ (58 : UInt8) ∉ u := by
+  induction cs generalizing u with
+  | nil => simp [splitFirstColon]
+  | cons c cs ih =>
+    unfold splitFirstColon
+    by_cases hc : c = 58
+    · subst hc
+      simp only [beq_self_eq_true, if_true, Option.some.injEq, Prod.mk.injEq]
+      constructor
+      · rintro ⟨rfl, rfl⟩; simp
+      · rintro ⟨h, hu⟩
+        cases u with
+        | nil => simp at h; exact ⟨rfl, h⟩
+        | cons x xs =>
+          simp only [List.cons_append, List.cons.injEq] at h
+          exact absurd (by simp [← h.1]) hu
+    · have h1 : (c == 58) = false := by simpa using hc
+      simp only [h1, Bool.false_eq_true, if_false, Option.map_eq_some_iff, Prod.mk.injEq]
+      constructor
+      · rintro ⟨⟨u', p'⟩, hs, rfl, rfl⟩
+        obtain ⟨h, hu⟩ := (ih u').mp hs
+        refine ⟨by simp [h], ?_⟩
+        simp only [List.mem_cons, not_or]
+        exact ⟨fun e => hc e.symm, hu⟩
+      · rintro ⟨h, hu⟩
+        cases u with
+        | nil => simp at h; exact absurd h.1 hc
+        | cons x xs =>
+          simp only [List.cons_append, List.cons.injEq] at h
+          simp only [List.mem_cons, not_or] at hu
+          exact ⟨(xs, p), (ih xs).mpr ⟨h.2, hu.2⟩, by simp [h.1], rfl⟩
+
+theorem basicPayload_basicAuthValue (u p : Bytes) : basicPayload (basicAuthValue u p) = some (u ++ 58 :: p) := by
+  unfold basicPayload basicAuthValue
+  have ht : (bs "Basic " ++ b64Encode (u ++ [58] ++ p)).take 6 = bs "Basic " := by
+    rw [← basicPrefix_len]; simp
+  have hd : (bs "Basic " ++ b64Encode (u ++ [58] ++ p)).drop 6 = b64Encode (u ++ [58] ++ p) := by
+    rw [← basicPrefix_len]; simp
+  have hlen : decide ((bs "Basic " ++ b64Encode (u ++ [58] ++ p)).length < 6) = false := by
+    simp [basicPrefix_len]
+  simp only [ht, hd, basicPrefix_fold, b64Decode_encode, hlen, Bool.not_true, Bool.or_self, Bool.false_eq_true, if_false]
+  simp
+
+/-! ## §6 the local wall clock -/
+
+theorem localWeekday_lt (unix offset : Int) : localWeekday unix offset < 7 := by
+  unfold localWeekday; omega
+
+theorem localHour_lt (unix offset : Int) : localHour unix offset < 24 := by
+  unfold localHour; omega
+
+/-- weekday and hour are functions of the number of whole hours of the local wall clock -/
+theorem localClock_of_hours {u1 o1 u2 o2 : Int} (h : (u1 + o1) / 3600 = (u2 + o2) / 3600) :
+    localWeekday u1 o1 = localWeekday u2 o2 ∧ localHour u1 o1 = localHour u2 o2 := by
+  unfold localWeekday localHour
+  have a1 : (u1 + o1) / 86400 = (u1 + o1) / 3600 / 24 := by omega
+  have a2 : (u2 + o2) / 86400 = (u2 + o2) / 3600 / 24 := by omega
+  have b1 : (u1 + o1) % 86400 / 3600 = (u1 + o1) / 3600 % 24 := by omega
+  have b2 : (u2 + o2) % 86400 / 3600 = (u2 + o2) / 3600 % 24 := by omega
+  rw [a1, a2, b1, b2, h]; exact ⟨rfl, rfl⟩
+
 /-! ## §4 client connections -/
 
 theorem ctx_eta (ctx : Ctx) : { ctx with secure := ctx.secure } = ctx := by cases ctx; rfl
